@@ -38,6 +38,8 @@ type SpecCtx struct {
 	lookup func(name string, st *State) (SVal, bool)
 	// watermark above which objects count as fresh(); "" = the function's entry watermark
 	freshBase string
+	loopBase  string // watermark at the entry of the loop whose invariant is translated
+	loopPre   *State // state at the entry of that loop (atloop(x))
 	// inOld: evaluating inside old(): parameter names denote entry values
 	inOld bool
 	// asGoal: the clause is being proved (unfolding() contributes its definition as a hypothesis)
@@ -606,6 +608,19 @@ func (c *SpecCtx) call(x *ast.CallExpr) SVal {
 				fb = fv.wm0
 			}
 			return SVal{sx(">=", c.refOf(v), fb), tBool}
+		case "atloop": // value of the expression when the enclosing loop was entered
+			if c.loopPre == nil {
+				specFail("atloop() only inside loop invariants")
+			}
+			n := *c
+			n.st = c.loopPre
+			return n.tr(x.Args[0])
+		case "freshloop": // allocated since the enclosing loop was entered
+			v := c.tr(x.Args[0])
+			if c.loopBase == "" {
+				specFail("freshloop() only inside loop invariants")
+			}
+			return SVal{sx(">=", c.refOf(v), c.loopBase), tBool}
 		case "allocated": // ref below the current watermark
 			v := c.tr(x.Args[0])
 			return SVal{sx("<", c.refOf(v), c.st.wm), tBool}
